@@ -432,7 +432,7 @@ def _calls(a):
     return out
 
 
-def kill(facts, written):
+def kill(facts, written, immune=frozenset()):
     if not written:
         return facts
     wild = 'A:*' in written
@@ -440,7 +440,7 @@ def kill(facts, written):
     changed = False
     for l in facts:
         d = lit_deps(l)
-        if (d & written) or (wild and any(x.startswith('A:') for x in d)):
+        if (d & written) or (wild and any(x.startswith('A:') and x not in immune for x in d)):
             changed = True
             continue
         out.append(l)
@@ -504,6 +504,7 @@ class Explorer(object):
         self.eff = Effects(program, func)
         self.tb = self.eff.tb
         self._edge_lit = {}
+        self.immune = frozenset(program.wildcard_immune(func.owner_cls)) if func.owner_cls is not None else frozenset()
 
     def edge_literal(self, node, pol):
         k = (node.id, pol)
@@ -537,7 +538,7 @@ class Explorer(object):
                 continue
             node = cfg.nodes[nid]
             written, gens = self.eff.of(node)
-            after = kill(fs, written)
+            after = kill(fs, written, self.immune)
             ncnt = cnt
             ncnt_exc = cnt
             if track is not None:
